@@ -933,7 +933,11 @@ func c06Backlog(r *gen.Rng, o *out.W, prop string) {
 // (it closes it), but it must not acknowledge the subscription and stay silent about part of the retained set
 func c11Overflow(r *gen.Rng, o *out.W, prop string) {
 	q := 2 + r.Intn(3)
+	// monitors only: WHICH of the matching retained messages still fit into the queue depends on the order in which the
+	// retained tree is walked (Go map order) — the model walks it in its own order
+	nextNoModel = true
 	w := newWorld(o, prop, 1, q, nil)
+	w.concurrent = false
 	p := w.Conn()
 	w.Connect(p, "P", true, nil, 0, "", "")
 	k := q + 3 + r.Intn(3)
@@ -956,7 +960,9 @@ func c11Overflow(r *gen.Rng, o *out.W, prop string) {
 // drop it, but nobody else may have to wait for it
 func c14RetainedFlood(r *gen.Rng, o *out.W) {
 	q := 1 + r.Intn(3)
+	nextNoModel = true // monitors only (see c11Overflow: which retained messages fit depends on Go's map order)
 	w := newWorld(o, "C14", 1, q, nil)
+	w.concurrent = false
 	wit := w.Conn()
 	w.Connect(wit, "W", true, nil, 0, "", "")
 	w.Subscribe(wit, packet.Subscription{Topic: "w/#", QOS: 1})
